@@ -586,7 +586,6 @@ func c09Diverge(r *core.Run) {
 	r.Floor("C09.DIVERGE", "appends to the Added/Removed operation lists", n, 2)
 }
 
-
 // loopBody: the natural loop of header h (blocks dominated by h that reach h without leaving its dominance region).
 func loopBody(h *ssa.BasicBlock) map[*ssa.BasicBlock]bool {
 	body := map[*ssa.BasicBlock]bool{h: true}
